@@ -1026,7 +1026,10 @@ impl Lowerer {
                 if let Some((cid, _)) = input_columns.get(&name) {
                     *cid
                 } else {
-                    panic!("cannot find cid by id={id} and name={name:?}");
+                    return Err(Error::new_assert(format!(
+                        "cannot find cid by id={id} and name={name:?}"
+                    ))
+                    .with_span(self.root_mod.span_map.get(&id).cloned()));
                 }
             }
             None => {
